@@ -3,16 +3,50 @@ package main
 import (
 	"fmt"
 	"os"
+
+	"verifharness/chk"
 )
 
 func main() {
 	if len(os.Args) < 2 {
-		fmt.Fprintln(os.Stderr, "usage: vh <command> ...")
+		fmt.Fprintln(os.Stderr, "usage: vh check <Cxx> [--tier quick|thorough] [--replay file] | vh smoke")
 		os.Exit(2)
 	}
 	switch os.Args[1] {
 	case "smoke":
 		os.Exit(smoke())
+	case "check":
+		if len(os.Args) < 3 {
+			fmt.Fprintln(os.Stderr, "usage: vh check <Cxx>")
+			os.Exit(2)
+		}
+		id := os.Args[2]
+		tier, replay := "", ""
+		for i := 3; i < len(os.Args); i++ {
+			switch os.Args[i] {
+			case "--tier":
+				i++
+				tier = os.Args[i]
+			case "--replay":
+				i++
+				replay = os.Args[i]
+			}
+		}
+		c := chk.New(id, tier)
+		_ = replay
+		switch id {
+		case "C02":
+			wireCheck(c, "C02", true, nil)
+		case "C09":
+			wireCheck(c, "C09", false, nil)
+		case "C10":
+			wireCheck(c, "C10", false, nil)
+		case "C11":
+			wireCheck(c, "C11", true, nil)
+		default:
+			fmt.Fprintln(os.Stderr, "no check for", id)
+			os.Exit(2)
+		}
 	default:
 		fmt.Fprintln(os.Stderr, "unknown command", os.Args[1])
 		os.Exit(2)
